@@ -328,6 +328,8 @@ type WSServer struct {
 	NewSub chan *WSSub
 	// HTTP handles ordinary POSTs (child steps of other operations)
 	HTTP http.Handler
+	// MuteClose (set before the first connection): the service never answers websocket close frames
+	MuteClose bool
 }
 
 func NewWSServer(httpHandler http.Handler) *WSServer {
@@ -350,9 +352,31 @@ func NewWSServer(httpHandler http.Handler) *WSServer {
 			defer close(sub.Closed)
 			defer conn.Close()
 			for {
-				msg, err := wsutil.ReadClientText(conn)
-				if err != nil {
-					return
+				var msg []byte
+				if s.MuteClose {
+					// a service that does not answer close frames (hung or busy): frames are read by hand, a close frame
+					// is swallowed, and only the end of the TCP connection ends the loop
+					hdr, err := ws.ReadHeader(conn)
+					if err != nil {
+						return
+					}
+					payload := make([]byte, hdr.Length)
+					if _, err := io.ReadFull(conn, payload); err != nil {
+						return
+					}
+					if hdr.Masked {
+						ws.Cipher(payload, hdr.Mask, 0)
+					}
+					if hdr.OpCode != ws.OpText {
+						continue
+					}
+					msg = payload
+				} else {
+					var err error
+					msg, err = wsutil.ReadClientText(conn)
+					if err != nil {
+						return
+					}
 				}
 				var m map[string]interface{}
 				if json.Unmarshal(msg, &m) != nil {
